@@ -1,9 +1,10 @@
 import Model.PyVal
 /-!
-# IPv4 addresses and networks as `ipaddress.ip_address` / `ip_network` (strict) read them
+# IPv4 / IPv6 addresses and networks as `ipaddress.ip_address` / `ip_network` (strict) read them
 
-Only the dotted-quad / decimal-prefix grammar is modelled; IPv6 (any `:`), netmask-style
-prefixes (a `.` after the `/`) and non-`str` network arguments are reported `unmodelled`.
+`ip_address(s)` tries IPv4 then IPv6; `ip_network(s)` tries an IPv4 network (decimal prefix, dotted-quad netmask or
+hostmask) then an IPv6 network (decimal prefix, optional scope id on the address).  Non-`str` network arguments are
+outside the model.
 -/
 namespace Vakt.Cidr
 
@@ -30,31 +31,169 @@ def parseIp4 (s : List Char) : Option Nat :=
   | [some a, some b, some c, some d] => some (((a * 256 + b) * 256 + c) * 256 + d)
   | _ => none
 
+/-! ## IPv6 -/
+
+def isHexDigit (c : Char) : Bool :=
+  isAsciiDigit c || ('a'.toNat ≤ c.toNat && c.toNat ≤ 'f'.toNat) || ('A'.toNat ≤ c.toNat && c.toNat ≤ 'F'.toNat)
+
+def hexDigitVal (c : Char) : Nat :=
+  if isAsciiDigit c then c.toNat - '0'.toNat
+  else if 'a'.toNat ≤ c.toNat && c.toNat ≤ 'f'.toNat then c.toNat - 'a'.toNat + 10
+  else c.toNat - 'A'.toNat + 10
+
+def hexVal (s : List Char) : Nat := s.foldl (fun acc c => acc * 16 + hexDigitVal c) 0
+
+/-- one colon-separated part of an IPv6 literal -/
+inductive Part where
+  | empty
+  | val (n : Nat)
+  | bad
+  deriving Repr, DecidableEq, Inhabited
+
+/-- `_parse_hextet`: 1–4 hexadecimal digits -/
+def partOf (s : List Char) : Part :=
+  if s.isEmpty then .empty
+  else if s.length > 4 || !s.all isHexDigit then .bad
+  else .val (hexVal s)
+
+def isEmptyPart : Part → Bool | .empty => true | _ => false
+
+/-- the hextets of a run of parts, most significant first; `none` if one of them is not a hextet -/
+def foldParts (acc : Nat) : List Part → Option Nat
+  | [] => some acc
+  | .val n :: rest => foldParts (acc * 65536 + n) rest
+  | _ :: _ => none
+
+/-- positions `1 … len-2` holding an empty part (a `::` with nothing in between) -/
+def skipIndices (ps : List Part) : List Nat :=
+  (List.range ps.length).filter (fun i => 1 ≤ i && i + 1 < ps.length && isEmptyPart (ps.getD i .bad))
+
+/-- `IPv6Address._ip_int_from_string` on the colon-separated parts (the IPv4 suffix already expanded) -/
+def ip6OfParts (ps : List Part) : Option Nat :=
+  if ps.length > 9 then none else
+  match skipIndices ps with
+  | [] =>
+    if ps.length != 8 then none else foldParts 0 ps          -- empty end parts are not hextets
+  | [i] =>
+    let hi0 := i
+    let lo0 := ps.length - i - 1
+    let firstEmpty := isEmptyPart (ps.getD 0 .bad)
+    let lastEmpty := isEmptyPart (ps.getD (ps.length - 1) .bad)
+    let hi := if firstEmpty then hi0 - 1 else hi0
+    let lo := if lastEmpty then lo0 - 1 else lo0
+    if firstEmpty && hi != 0 then none          -- `^:` requires `^::`
+    else if lastEmpty && lo != 0 then none      -- `:$` requires `::$`
+    else if hi + lo ≥ 8 then none               -- `::` must stand for at least one hextet
+    else
+      match foldParts 0 (ps.take hi) with
+      | none => none
+      | some h =>
+        foldParts (h * 65536 ^ (8 - (hi + lo))) (ps.drop (ps.length - lo))
+  | _ => none                                   -- more than one `::`
+
+/-- the address part of an IPv6 literal (no scope id, no `/`) -/
+def parseIp6Core (s : List Char) : Option Nat :=
+  let parts := splitOn ':' s
+  if parts.length < 3 then none else
+  match parts.getLast? with
+  | none => none
+  | some last =>
+    if last.contains '.' then
+      (match parseIp4 last with
+       | some v => ip6OfParts ((parts.dropLast.map partOf) ++ [.val (v / 65536), .val (v % 65536)])
+       | none => none)
+    else ip6OfParts (parts.map partOf)
+
+/-- `_split_scope_id`: `addr%scope` with a non-empty scope without a further `%` -/
+def splitScope (s : List Char) : Option (List Char) :=
+  match splitOn '%' s with
+  | [a] => some a
+  | [a, sc] => if sc.isEmpty then none else some a
+  | _ => none
+
+def parseIp6 (s : List Char) : Option Nat :=
+  if s.contains '/' then none else
+  match splitScope s with
+  | some a => parseIp6Core a
+  | none => none
+
+/-- `ipaddress.ip_address(s)`: version and integer value -/
+def parseAddr (s : List Char) : Option (Nat × Nat) :=
+  match parseIp4 s with
+  | some v => some (4, v)
+  | none => match parseIp6 s with
+    | some v => some (6, v)
+    | none => none
+
+/-! ## Networks -/
+
 inductive NetRes where
-  | ok (addr : Nat) (prefixLen : Nat)
+  | ok (version : Nat) (addr : Nat) (prefixLen : Nat)
   | invalid
   | unmodelled
   deriving Repr, DecidableEq
 
-def hostMask (p : Nat) : Nat := 2 ^ (32 - p)
+def maxPrefix (version : Nat) : Nat := if version = 4 then 32 else 128
 
-/-- `ip_network(s)` (strict) for a `str` without `:` -/
-def parseNet4 (s : List Char) : NetRes :=
-  if s.contains ':' then .unmodelled else
+def hostSize (version p : Nat) : Nat := 2 ^ (maxPrefix version - p)
+
+/-- `_prefix_from_ip_int`: the mask is `1…10…0`; its number of ones -/
+def prefixOfMask (m : Nat) : Option Nat :=
+  (List.range 33).find? (fun p => m == 2 ^ 32 - 2 ^ (32 - p))
+
+/-- a dotted-quad netmask (`255.255.0.0`) or, failing that, hostmask (`0.0.255.255`) -/
+def prefixOfIpString (s : List Char) : Option Nat :=
+  match parseIp4 s with
+  | none => none
+  | some m =>
+    match prefixOfMask m with
+    | some p => some p
+    | none => prefixOfMask (2 ^ 32 - 1 - m)
+
+/-- `_prefix_from_prefix_string`: ASCII digits, at most the maximum -/
+def prefixOfDigits (version : Nat) (p : List Char) : Option Nat :=
+  if p.isEmpty || !p.all isAsciiDigit then none
+  else if digitsVal p > maxPrefix version then none
+  else some (digitsVal p)
+
+def strictNet (version addr p : Nat) : NetRes :=
+  if addr % hostSize version p == 0 then .ok version addr p else .invalid      -- "has host bits set"
+
+def net4 (a : List Char) (mask : Option (List Char)) : NetRes :=
+  match parseIp4 a with
+  | none => .invalid
+  | some ip =>
+    match mask with
+    | none => .ok 4 ip 32
+    | some m =>
+      match prefixOfDigits 4 m with
+      | some p => strictNet 4 ip p
+      | none => match prefixOfIpString m with
+        | some p => strictNet 4 ip p
+        | none => .invalid
+
+def net6 (a : List Char) (mask : Option (List Char)) : NetRes :=
+  match splitScope a with
+  | none => .invalid
+  | some a' =>
+    match parseIp6Core a' with
+    | none => .invalid
+    | some ip =>
+      match mask with
+      | none => .ok 6 ip 128
+      | some m =>
+        match prefixOfDigits 6 m with
+        | some p => strictNet 6 ip p
+        | none => .invalid
+
+/-- `ip_network(s)` (strict) for a `str`: the IPv4 reading first, then the IPv6 one -/
+def parseNet (s : List Char) : NetRes :=
   match splitOn '/' s with
-  | [a] =>
-    (match parseIp4 a with | some ip => .ok ip 32 | none => .invalid)
-  | [a, p] =>
-    if p.contains '.' then .unmodelled
-    else if p.isEmpty || !p.all isAsciiDigit then .invalid
-    else if digitsVal p > 32 then .invalid
-    else
-      (match parseIp4 a with
-       | some ip => if ip % hostMask (digitsVal p) == 0 then .ok ip (digitsVal p) else .invalid
-       | none => .invalid)
+  | [a] => (match net4 a none with | .ok v x p => .ok v x p | _ => net6 a none)
+  | [a, m] => (match net4 a (some m) with | .ok v x p => .ok v x p | _ => net6 a (some m))
   | _ => .invalid
 
-/-- `ip in net` for same-version operands -/
-def contains (net : Nat) (p : Nat) (ip : Nat) : Bool := ip / hostMask p == net / hostMask p
+/-- `ip in net`: same version, and the address agrees with the network on the prefix bits -/
+def contains (nv net p : Nat) (av ip : Nat) : Bool := nv == av && ip / hostSize nv p == net / hostSize nv p
 
 end Vakt.Cidr
